@@ -79,6 +79,10 @@ func (s *KeyStore) writeKeyRing(ring *KeyRing) (err error) {
 
 	err = s.pushNewRingState(ring)
 	if err != nil {
+		// The new state has not been stored: do not keep showing it through this key ring object
+		// (a key that does not exist, a state or current key that was never set) until the next
+		// synchronization, and do not base the next update on it.
+		ring.rollbackPendingTX()
 		return err
 	}
 
